@@ -55,6 +55,12 @@ TRUSTED = [
     "tick are not explored); serialization / hydration is out of scope",
 ]
 ASSUMPTIONS = [
+    "paused dependents: in a tenth of the cases the dependents (an effect; dep = 3: also a nested ArcAsyncDerived that reads the "
+    "node) live under an owner that the history pauses and resumes (events 10 / 11), with a load published during the pause and "
+    "another one after it; the oracle demands that once the pause is lifted every later publication reaches every dependent "
+    "(what was published during the pause is not replayed, and a dependent that is still paused at the end may be stale). "
+    "Owner::pause is not in the Coq model (Async.v's dependent has no paused flag): these cases are judged by the Python "
+    "oracle alone (compared, not proved)",
     "the _with_initial constructors (value present at once, the first load still runs) are not in the Coq model: 12 % of the "
     "shape 0 / 1 cases use them and are judged by the Python oracle alone (compared, not proved)",
     "awaits through by_ref() are generated outside the Suspense boundary only (that future does not register a boundary)",
@@ -66,7 +72,7 @@ ASSUMPTIONS = [
     "manual writes store Some(v); a write guard that leaves None while a load is pending, or notify() before any value "
     "exists, makes a pending awaiter panic at `unwrap()` in AsyncDerivedFuture::poll — not generated, reported as an observation",
     "an initial (hydrated) value equals the fetcher applied to the initial inputs",
-    "Owner::paused() is false",
+    "Owner::paused() is false for the node itself (its own task loop); for the dependents see above",
     "Suspense: awaits (AsyncDerivedFuture / OnceResourceFuture polls) under the boundary are modelled; synchronous reads under "
     "the boundary (which take a task of the boundary and spawn a helper task that returns it once the node is ready) are "
     "generated in a tenth of the cases, which are not compared with the Coq model (it has no such event) but judged by the "
@@ -279,6 +285,22 @@ def generate(rng, tier):
             yield dict(case=gen_transition(rng), kind="transition")
             continue
         c = gen_case(rng)
+        if c[0] != 5 and rng.random() < 0.1:
+            # dependents (an effect, dep = 3: also a nested async derived value reading the node) under an owner that
+            # the history pauses and resumes: a load is published during the pause, another one after it. Not in the
+            # Coq model: oracle only
+            c[2] = rng.choice([1, 2, 3, 3])
+            evs = c[4]
+            k1 = rng.randint(0, len(evs))
+            k2 = rng.randint(k1, len(evs))
+            sig = 0 if c[0] != 0 else rng.choice([0, 1])
+            during = [[0, sig, rng.randint(0, 5)], [6, []]] + [[4, f] for f in range(rng.randint(2, 6))] + [[6, []]]
+            after = [[0, sig, rng.randint(0, 5)], [6, []]] if rng.random() < 0.8 else []
+            c[4] = [[6, []]] + evs[:k1] + [[10]] + during + evs[k1:k2] + [[11]] + after + evs[k2:]
+            if rng.random() < 0.3:
+                c[4] += [[10]] + ([[11]] if rng.random() < 0.5 else [])
+            yield dict(case=c, kind="paused-dependents", compare=False)
+            continue
         if c[0] in (0, 1) and (c[0] == 1 or c[1] in (0, 1, 2, 5)) and rng.random() < 0.12:
             # the `_with_initial` constructors (value present at once, first load still runs) are not in the Coq
             # model either
@@ -323,7 +345,17 @@ def oracle(item, impl):
     sus_flags = []       # per awaiter: created under the Suspense boundary
     sus_polled = False   # a child under the boundary awaited the node since the last load started
     first_started = (bool(initial) and shape == 3) or shape == 5
+    paused = ever_paused = False
+    published_since_resume = False      # a value was stored / loading went off while the dependents were not paused
     for j, e in enumerate(evs):
+        if e[0] == 10:
+            paused = ever_paused = True
+        elif e[0] == 11:
+            if paused:
+                published_since_resume = False
+            paused = False
+        elif not paused and impl[j + 1][1] == 0 and impl[j + 1][:2] != impl[j][:2]:
+            published_since_resume = True
         if e[0] == 0 and e[1] < 3:
             sig[e[1]] = e[2]
             seen_inputs.add(inputs(shape, sig))
@@ -375,6 +407,8 @@ def oracle(item, impl):
                 if a[1] != val:
                     return "event %d: awaiter %d resumed with %r while the node holds %r" % (j, k, a[1], val)
     fin = impl[-1]
+    if not paused and fin[1] == 0 and fin[:2] != impl[-2][:2]:
+        published_since_resume = True
     val = opt(fin[0])
     want = fetch(*inputs(shape, sig))
     if manual_vals:
@@ -399,8 +433,17 @@ def oracle(item, impl):
         logs = [x for o in impl for x in o[4]]
         if not logs:
             return "the dependent effect never ran"
-        if opt(logs[-1]) != val:
-            return "the dependent last saw %r but the node settled on %r: a transition was not notified" % (opt(logs[-1]), val)
+        # a paused dependent hears nothing and what it missed is not replayed; once the pause is lifted every later
+        # transition must reach it
+        must_know = (not ever_paused) or (not paused and published_since_resume)
+        if must_know and opt(logs[-1]) != val:
+            return "the dependent last saw %r but the node settled on %r: a transition %swas not notified" % (
+                opt(logs[-1]), val, "after the pause was lifted " if ever_paused else "")
+        if dep == 3:
+            nv = opt(fin[7]) if len(fin) > 7 else "missing"
+            if must_know and nv != (val + 1 if val is not None else -1):
+                return ("the nested async derived value holds %r but the node it reads settled on %r: a transition %swas not "
+                        "notified" % (nv, val, "after the pause was lifted " if ever_paused else ""))
     return None
 
 
@@ -444,8 +487,19 @@ def valid_case(item):
             return False
         shape, wrap, dep, initial, evs = case[:5]
         maxw = {0: 7, 1: 1, 2: 1, 3: 0, 4: 13, 5: 9}
-        if shape not in maxw or not isinstance(wrap, int) or not 0 <= wrap <= maxw[shape] or dep not in (0, 1, 2):
+        if shape not in maxw or not isinstance(wrap, int) or not 0 <= wrap <= maxw[shape] or dep not in (0, 1, 2, 3):
             return False
+        pausing = dep == 3 or any(isinstance(e, list) and e and e[0] in (10, 11) for e in evs)
+        if pausing:
+            # oracle-only cases; the dependents have run once (a run-until-idle) before the first pause
+            if item.get("compare", True) or dep == 0 or shape == 5:
+                return False
+            seen_run = False
+            for e in evs:
+                if isinstance(e, list) and e and e[0] == 6:
+                    seen_run = True
+                if isinstance(e, list) and e and e[0] == 10 and not seen_run:
+                    return False
         if not isinstance(initial, list) or len(initial) > 1:
             return False
         if initial and shape != 3:
@@ -454,7 +508,7 @@ def valid_case(item):
                 return False
         elif initial and initial[0] != 0:
             return False
-        ar = {0: 3, 1: 1, 2: 2, 3: 1, 4: 2, 5: 2, 6: 2, 7: 2, 8: 2, 9: 1}
+        ar = {0: 3, 1: 1, 2: 2, 3: 1, 4: 2, 5: 2, 6: 2, 7: 2, 8: 2, 9: 1, 10: 1, 11: 1}
         local = shape == 0 and wrap in (3, 4)
         if any(isinstance(e, list) and e and e[0] == 9 for e in evs) and item.get("compare", True):
             return False
@@ -486,7 +540,7 @@ def valid_case(item):
                 manual = True
             if e[0] == 3 and not manual:
                 return False
-            if e[0] == 5 and e[1] > 1:
+            if e[0] == 5 and e[1] > (2 if dep == 3 else 1):
                 return False
             if e[0] == 7:
                 na += 1
@@ -498,7 +552,7 @@ def valid_case(item):
 
 
 EV = {0: "write-signal", 1: "refetch", 2: "set", 3: "notify", 4: "complete", 5: "poll-task", 6: "run-until-idle",
-      7: "new-awaiter", 8: "poll-awaiter", 9: "read-under-suspense"}
+      7: "new-awaiter", 8: "poll-awaiter", 9: "read-under-suspense", 10: "pause-dependents", 11: "resume-dependents"}
 SH = {0: "reads signals s0,s1", 1: "reads memos s0/2, s1", 2: "reads m3 then m2 (m3 depends on m2 = s0*10)",
       3: "resource-like (memo over (refetch, s0/2), manual dependency)", 4: "leptos_server Resource over s0/2",
       5: "leptos_server OnceResource"}
